@@ -136,15 +136,20 @@ def fresh : RW := ⟨.idle, [], [], [], [], [], 0⟩
 
 end RW
 
-/-! ### `Pool.reportSSHConnected` (finding F15b)
+/-! ### `Pool.reportSSHConnected` (finding F15b, fixed in /repo 847719d)
 
 Called through `TagVerifier.VerifyHostKey` when an SSH connection to an instance has been verified:
-`wkr := wp.workers[inst.ID()]; if wkr.state != StateBooting || … { return }`. The map lookup yields nil
-when `Pool.sync` has dropped the worker while the handshake was in progress (instance destroyed and
-gone from the cloud's list), and `wkr.state` then panics with a nil dereference. -/
+`wkr := wp.workers[inst.ID()]; if wkr == nil { return }; if wkr.state != StateBooting || … { return }; …`.
+The map lookup yields nil when `Pool.sync` has dropped the worker while the handshake was in
+progress (instance destroyed and gone from the cloud's list). Before the fix there was no nil check
+and `wkr.state` panicked (`reportSSHConnectedOld`). -/
 
-/-- `none` = the process panics -/
-def reportSSHConnected (workers : List Nat) (id : Nat) : Option Unit :=
-  if workers.contains id then some () else none
+/-- `none` = the process panics; `some b`: it returned, having looked at a worker (`b`) or not -/
+def reportSSHConnected (workers : List Nat) (id : Nat) : Option Bool :=
+  if workers.contains id then some true else some false
+
+/-- the code before the fix -/
+def reportSSHConnectedOld (workers : List Nat) (id : Nat) : Option Bool :=
+  if workers.contains id then some true else none
 
 end ArvVerif.C15
